@@ -41,9 +41,10 @@ class Insert(ASTNode):
         return TableColumn(str(col))
 
     def to_value(self, val):
-        if isinstance(val, ASTNode) :
-            return val.to_string()
-        return repr(val)
+        if not isinstance(val, ASTNode):
+            # raw python value: print it as a constant
+            val = Constant(val)
+        return val.to_string()
 
     def to_tree(self, *args, level=0, **kwargs):
         ind = indent(level)
